@@ -40,7 +40,9 @@ def systematic():
         ("flapping", {"dave": True}, [_chk("dave"), _set("dave", False), _tick(5), _chk("dave"), _set("dave", True), _tick(1), _chk("dave"),
                                       _tick(4), _chk("dave"), _set("dave", False), DD, _tick(5), _chk("dave"), DU, _tick(5), _chk("dave")]),
     ]
-    return [{"users": ["carol", "dave", "root"], "init": i, "steps": s, "origin": o} for o, i, s in out]
+    M = {"op": "mint", "user": "auto"}
+    out.append(("automation-admin-is-no-admin", {"carol": True}, [_chk("auto"), M, _chk("auto"), _chk("carol"), _tick(4), M, _chk("auto"), _tick(5), _chk("auto")]))
+    return [{"users": ["carol", "dave", "root", "auto"], "init": i, "steps": s, "origin": o} for o, i, s in out]
 
 
 def simulate(work, n, depth, seed):
@@ -59,7 +61,7 @@ def simulate(work, n, depth, seed):
         steps = [{k: v for k, v in a.items() if k in ("op", "user", "member", "d")} for a in acts[1:]]
         # keep behaviours that ask at least twice
         if sum(1 for s in steps if s["op"] == "check") >= 2:
-            traces.append({"users": ["carol", "dave", "root"], "init": acts[0]["member"], "steps": steps, "origin": "simulate"})
+            traces.append({"users": ["carol", "dave", "root", "auto"], "init": acts[0]["member"], "steps": steps, "origin": "simulate"})
     if not traces:
         raise E.Inconclusive("no admin-cache behaviours generated:\n" + r["out"][-1500:])
     return traces
@@ -70,9 +72,10 @@ def admin_part(res, tier, seed, work):
     E.tlc_mc(work, "KMAdminCache", "MC_KMAdminCache.cfg", cov, timeout=900)
     if tier == "thorough":
         E.tlc_mc(work, "KMAdminCache", "MC_KMAdminCache_thorough.cfg", cov, timeout=2400)
-    r = E.tlc(work, "KMAdminCache", "Neg_KMAdminCache_EmptyAnswerIsError.cfg", timeout=300, tag="neg-admin")
-    if not r["violated"]:
-        raise E.Inconclusive("negative control Neg_KMAdminCache_EmptyAnswerIsError found no violation")
+    for neg in ("Neg_KMAdminCache_EmptyAnswerIsError.cfg", "Neg_KMAdminCache_MintCachesAdmin.cfg"):
+        r = E.tlc(work, "KMAdminCache", neg, timeout=300, tag="neg-" + neg)
+        if not r["violated"]:
+            raise E.Inconclusive("negative control %s found no violation" % neg)
     n, depth = (30, 16) if tier == "quick" else (300, 24)
     traces = systematic() + simulate(work, n, depth, seed)
     E.log("%d admin-cache histories" % len(traces))
